@@ -1049,6 +1049,7 @@ func generate(rng *lib.Rng, tier string) []job {
 	jobs = append(jobs, genHostileSignatures(b)...)
 	jobs = append(jobs, genHostileDirs(b, thorough)...)
 	jobs = append(jobs, genHostileCerts(b)...)
+	jobs = append(jobs, genHostileCAEntries(b)...)
 	jobs = append(jobs, genNullMembers(rng.Fork(), b, thorough)...)
 	jobs = append(jobs, genDirect()...)
 	jobs = append(jobs, genRecord()...)
